@@ -214,6 +214,8 @@ def build(shape, gin, lists_on='target'):
       first_kw = {k: v for k, v in reg_kwargs.items() if k not in ('allowlist', 'denylist')}
       if 'module' not in first_kw:
         first_kw['module'] = modname
+      # (optionally with lists of its own, which say nothing about the second registration)
+      first_kw.update(shape.get('also_as_lists') or {})
       gin.external_configurable(target, name=shape['also_as'], **first_kw)
     tw = shape.get('twin_required_defaults')
     if tw is None and shape.get('twin_other_defaults'):
